@@ -416,3 +416,121 @@ def casefold_rule(ck, prog, rule, tier="quick"):
     else:
         ck.holds(rule, st, loc(f, cmpn), "%d byte pairs: equal exactly when equal after A-Z -> a-z" % npairs)
     return True
+
+
+NARROWING_WHITELIST = {
+    ("scpi_ecvt", "store", "w2"): "w2 = bufsize: the only caller passes SCPI_DTOSTRE_BUFFER_SIZE - 1 = 31",
+}
+
+
+_NARROW_SELFTEST = []
+
+
+def _narrowing_positive_example():
+    from sa import facts as F_
+    try:
+        tu = F_.extract_fixture(os.path.join(os.path.dirname(os.path.dirname(os.path.abspath(__file__))), "selftest", "fixtures", "narrowing.c"))
+    except Exception:
+        return -1
+
+    class P_:
+        functions = tu.functions
+
+        @staticmethod
+        def fn(name):
+            return tu.functions.get(name)
+
+    class CK_:
+        n = 0
+
+        def violated(self, *a, **k):
+            self.n += 1
+
+        def holds(self, *a, **k):
+            pass
+
+        def analysed(self, *a):
+            pass
+
+        def anchor_lost(self, *a):
+            pass
+    c = CK_()
+    _NARROW_SELFTEST.append(3)          # re-entrancy guard while the example itself is analysed
+    try:
+        narrowing_rule(c, P_, "selftest", lambda f_: True)
+    finally:
+        _NARROW_SELFTEST.pop()
+    return c.n
+
+
+def narrowing_rule(ck, prog, rule, in_scope, floor_scope=1):
+    """No integer travels through this property's functions into a narrower type by an IMPLICIT conversion:
+    (a) a parameter handed on unchanged to a callee's narrower parameter, (b) a parameter stored into a narrower struct field or
+    local, (c) a field returned through a wider return type than the field itself (the API promises bits the storage does not
+    have).  Expected count on a healthy tree: zero (one reviewed exception); every instance comes with the value that is lost."""
+    nscope = 0
+    bad = 0
+    for f in sorted(prog.functions.values(), key=lambda f_: (f_.relfile, f_.line)):
+        if not in_scope(f):
+            continue
+        nscope += 1
+        ck.analysed(f)
+        ptypes = {p["name"]: p["type"] for p in f.params}
+
+        def through(x):
+            implicit = True
+            while x.k in ("ImplicitCastExpr", "ParenExpr", "CStyleCastExpr") and x.ch:
+                if x.k == "CStyleCastExpr":
+                    implicit = False
+                x = x.child(0)
+            return x, implicit
+        k = 0
+        for c in f.calls():
+            g = prog.fn(c.get("callee") or "")
+            if g is None:
+                continue
+            for i, a in enumerate(C.call_args(c)):
+                if i >= len(g.params):
+                    break
+                x, implicit = through(a)
+                if x.k == "DeclRefExpr" and x["decl"]["kind"] == "param" and x["decl"]["name"] in ptypes and implicit:
+                    st_, gt = ptypes[x["decl"]["name"]], g.params[i]["type"]
+                    if st_.get("tk") == "int" and gt.get("tk") == "int" and (gt.get("bits") or 0) < (st_.get("bits") or 0):
+                        if (f.name, "arg", x["decl"]["name"]) in NARROWING_WHITELIST:
+                            continue
+                        ck.violated(rule, site(f, "narrowing-argument(%s)" % x["decl"]["name"], k), loc(f, c),
+                                    "`%s` (%d bits) is handed to %s's parameter `%s` of %d bits by an implicit conversion: the value "
+                                    "2^%d arrives as 0" % (x["decl"]["name"], st_["bits"], g.name, g.params[i]["name"], gt["bits"], gt["bits"]))
+                        k += 1
+                        bad += 1
+        for n, t in C.stores(f):
+            if n.get("op") != "=":
+                continue
+            x, implicit = through(n.child(1))
+            if x.k == "DeclRefExpr" and x["decl"]["kind"] == "param" and x["decl"]["name"] in ptypes and implicit:
+                st_ = ptypes[x["decl"]["name"]]
+                if st_.get("tk") == "int" and t.get("tk") == "int" and (t.get("bits") or 0) < (st_.get("bits") or 0):
+                    if (f.name, "store", t.get("path")) in NARROWING_WHITELIST:
+                        continue
+                    ck.violated(rule, site(f, "narrowing-store(%s)" % (t.get("path") or "?"), 0), loc(f, n),
+                                "`%s` stores the %d-bit parameter `%s` into %d bits: the value 2^%d is kept as 0"
+                                % (n.src[:60], st_["bits"], x["decl"]["name"], t["bits"], t["bits"]))
+                    bad += 1
+        if f.ret.get("tk") == "int":
+            for r in f.nodes.values():
+                if r.k == "ReturnStmt" and r.ch:
+                    x, implicit = through(r.child(0))
+                    if x.k == "MemberExpr" and x.get("tk") == "int" and x.get("bits") and f.ret.get("bits") and x["bits"] < f.ret["bits"] \
+                            and not x.get("bitfield"):
+                        ck.violated(rule, site(f, "narrow-field-behind-wide-accessor", 0), loc(f, r),
+                                    "%s returns %d bits but reads them from the %d-bit field `%s`: values that need more than %d bits "
+                                    "cannot come back" % (f.name, f.ret["bits"], x["bits"], x.src, x["bits"]))
+                        bad += 1
+    if not _NARROW_SELFTEST:
+        _NARROW_SELFTEST.append(_narrowing_positive_example())
+    if _NARROW_SELFTEST[0] != 3:
+        ck.anchor_lost(rule, "the positive example selftest/fixtures/narrowing.c yields %s reports instead of 3: the rule has gone blind" % _NARROW_SELFTEST[0])
+    if nscope < floor_scope:
+        ck.anchor_lost(rule, "only %d functions in the scope of the narrowing rule" % nscope)
+    elif bad == 0:
+        ck.holds(rule, "narrowing/scope#0", "libscpi/src", "%d functions: no parameter is narrowed implicitly on its way to a callee, a field or a caller" % nscope)
